@@ -167,10 +167,15 @@ package lib
 // (Proxy itself is not under contract yet: the spawn-site preconditions of halfPipe did not discharge in time.)
 
 //@ ghost func idStringOf(reg *DecoyRegistration) string
+// C11: the log/registry identifier of a registration never slices past the encoded secret, whatever its length
+// (a structurally valid registration message may carry a secret of any length, including none).
 //@ func (reg *DecoyRegistration) IDString() string
-//@   ensures result == idStringOf(reg)
+//@   ensures @DET: result == idStringOf(reg)
+//@   ensures @C11: true
 //@   assigns nothing
-//@   trusted
+//@   checks safety
+//@ loop 1:
+//@   invariant 0 <= i && i <= regIDLen && (cap(xid) == 0 || fresh(xid))
 //@ func writePROXYHeader(conn net.Conn, address string) error
 //@   assigns txh(conn), nwritten(conn), nwrites(conn), wfail(conn)
 //@   trusted
